@@ -96,7 +96,8 @@ pub fn canon_eq(a: &SNode, b: &SNode) -> bool {
 fn gen_user_meta(c: &mut Choices) -> Vec<(String, Vec<u8>)> {
     let mut out = vec![];
     for i in 0..c.pick(4) {
-        let k = format!("{}{}", ["user.key", "k", "\u{e9}\u{4e2d}", "", "x y"][c.pick(5)], i);
+        // (only keys starting with "avro." are reserved: look-alikes are ordinary user keys)
+        let k = format!("{}{}", ["user.key", "k", "\u{e9}\u{4e2d}", "", "x y", "avro_tool", "avroSource", "avro-rs", "avro", "Avro.x"][c.pick(10)], i);
         let n = [0usize, 1, 5, 70][c.pick(4)];
         out.push((k, c.bytes(n)));
     }
